@@ -29,6 +29,9 @@ var ErrInjected = errors.New("injected API failure")
 type ListFault struct {
 	Kind    string
 	Latency time.Duration
+	// Stale: the snapshot is taken when the call arrives (before the latency), so the reply can be older than
+	// watch events delivered meanwhile (a real slow list)
+	Stale bool
 }
 
 // WatchFault describes what one Watch call does.
@@ -142,6 +145,20 @@ func (s *Server) Objects() []metav1.Object {
 	return out
 }
 
+// Snapshot returns content and version atomically (what a list sees).
+func (s *Server) Snapshot() ([]metav1.Object, int) {
+	var out []metav1.Object
+	rv := 0
+	vs.Atomic(s, func() {
+		for _, p := range s.objs {
+			out = append(out, p)
+		}
+		rv = s.rv
+	})
+	sort.Slice(out, func(i, j int) bool { return key(out[i].GetNamespace(), out[i].GetName()) < key(out[j].GetNamespace(), out[j].GetName()) })
+	return out, rv
+}
+
 // Version0 reads the version without a scheduling point (call inside Atomic(s)).
 func (s *Server) Version0() int { return s.rv }
 
@@ -173,6 +190,25 @@ func (s *Server) List(ctx context.Context, opts metav1.ListOptions) (runtime.Obj
 		}
 	})
 	defer vs.Atomic(s, func() { s.Inflight-- })
+	takeSnap := func() {
+		vs.Atomic(s, func() {
+			if f.Kind == "" {
+				s.ListRVs = append(s.ListRVs, s.rv)
+			}
+			snap = &corev1.PodList{ListMeta: metav1.ListMeta{ResourceVersion: strconv.Itoa(s.rv)}}
+			keys := make([]string, 0, len(s.objs))
+			for k := range s.objs {
+				keys = append(keys, k)
+			}
+			sort.Strings(keys)
+			for _, k := range keys {
+				snap.Items = append(snap.Items, *s.objs[k])
+			}
+		})
+	}
+	if f.Stale {
+		takeSnap()
+	}
 	if f.Latency > 0 || f.Kind == "block" {
 		var tc <-chan time.Time
 		if f.Kind != "block" {
@@ -192,21 +228,10 @@ func (s *Server) List(ctx context.Context, opts metav1.ListOptions) (runtime.Obj
 		default:
 		}
 	}
-	// the snapshot is taken when the (possibly slow) list completes on the server side
-	vs.Atomic(s, func() {
-		if f.Kind == "" {
-			s.ListRVs = append(s.ListRVs, s.rv)
-		}
-		snap = &corev1.PodList{ListMeta: metav1.ListMeta{ResourceVersion: strconv.Itoa(s.rv)}}
-		keys := make([]string, 0, len(s.objs))
-		for k := range s.objs {
-			keys = append(keys, k)
-		}
-		sort.Strings(keys)
-		for _, k := range keys {
-			snap.Items = append(snap.Items, *s.objs[k])
-		}
-	})
+	// normally the snapshot is taken when the (possibly slow) list completes on the server side
+	if !f.Stale {
+		takeSnap()
+	}
 	switch f.Kind {
 	case "error":
 		return nil, ErrInjected
